@@ -25,7 +25,7 @@ EXTRA = [
 def run(ctx) -> int:
     seven = semcheck.flags_only(*SEVEN)
     rnd = [semcheck.flags_only(*[t for t in SEVEN if ctx.rng.random() < 0.5]) for _ in range(2 if ctx.quick() else 10)]
-    return _generic.run_semantic(ctx, MODULE, LEVEL, RULE, [seven] + rnd, "voc", None, EXTRA, (80, 500), (60, 1500),
+    return _generic.run_semantic(ctx, MODULE, LEVEL, RULE, [seven] + rnd, "voc", None, EXTRA, (50, 500), (30, 1500),
                                  n_inst=4, generators=list(tgen.GENERATORS.values()), outp_choices=("auto",), one_to_one=True,
                                  assumptions=("M4's converse (every stable model of the extension is the least-fixpoint extension) is not proved",))
 
